@@ -336,6 +336,10 @@ def run_check(prop, tier, seed):
                 for o in cfg.get("oracles", []):
                     for msg in o(c, it or []):
                         oracle_fail.append((c, profile, msg))
+            # oracles that look at several cases at once (layout variants of one program, ...)
+            for po in cfg.get("pair_oracles", []):
+                for c, msg in po(cs, impl):
+                    oracle_fail.append((c, profile, msg))
     nontrivial = len(distinct)
 
     # known-finding filter for oracle failures / mismatches
